@@ -93,7 +93,7 @@ func valKind(v Val) string {
 }
 
 func checkC10(c *Ctx) {
-	c.rule = "API driver: every receiver of a 51-value pool (all value types incl. objects, types, library functions, exception, Go value) x every member name extracted from the working tree (+unknown names) x {get, set, call, new, fn, str, dup, cmp, json} x argument tuples (arity 0..1 exhaustive over a 32-value boundary pool, arity 2 exhaustive in thorough, arity 2..4 random; for list / dictionary / text receivers additionally every position and position pair in [-2, length+2]), applied as step sequences on one receiver. Program driver: one- and two-statement Zn programs applying every operator / index / member / call / new / throw / loop form to input variables drawn from the same pools. Violation = recovered Go panic, nil element without error, worker exit, or hang. distinct_nontrivial = distinct (receiver kind, step kind, member, arg kinds, outcome kind)"
+	c.rule = "API driver: every receiver of a 51-value pool (all value types incl. objects, types, library functions, exception, Go value) x every member name extracted from the working tree (+unknown names) x {get, set, call, new, fn, str, dup, cmp, json} x argument tuples (arity 0..1 exhaustive over a 32-value boundary pool, arity 2 exhaustive in thorough, arity 2..4 random; for list / dictionary / text receivers additionally every position and position pair in [-2, length+2]), applied as step sequences on one receiver. Program driver: one- and two-statement Zn programs applying every operator / index / member / call / new / throw / loop form to input variables drawn from the same pools; plus user methods / type methods whose body ends in each of 25 failures (with no handler, a handler without and with 输出) whose call is placed in each of 26 consumer positions. Violation = recovered Go panic, nil element without error, worker exit, or hang. distinct_nontrivial = distinct (receiver kind, step kind, member, arg kinds, outcome kind)"
 	c.assumptions = []string{"library functions run inside the worker's private scratch directory", "member tables are read from /repo sources at check time by a string-literal scan"}
 	rng := c.Rand("c10")
 	members := memberNames()
@@ -312,6 +312,34 @@ func checkC10(c *Ctx) {
 			addProg("format", "输出甲 % 乙\n", a, b)
 		case 13:
 			addProg("assign-decl", "令果、又 = 甲\n果 = 乙\n（显示：果、又）\n输出【甲，乙，【果 = 丙】】\n", a, b, cc)
+		}
+	}
+	// results of user methods whose body ends in every kind of failure, used in every consumer
+	// position: a failure inside a callee must never come back as an absent (nil) result
+	failBodies := []string{
+		"抛出异常：“x”！", "令坏 = 1 / 0", "（显示：“{” % 【】）", "（显示：“{}{}” % 【1】）", "（显示：“{#.2}” % 【“a”】）", "（显示：3x7）", "（显示：1e+）",
+		"（显示：未定义名）", "（显示：【1】#5）", "（显示：“a” * 2）", "以5（缺失）", "（试：1、2、3）", "令 参 = 1", "（显示：（读取文件：“/不存在/的/文件”））",
+		"导入《不存在的模块》", "（解析JSON：“{”）", "以“12x”（转换数值）", "输出 “{” % 【】", "输出 3x7", "如果 “{” % 【】：\n\t\t输出 1",
+		"每当 “{” % 【】：\n\t\t输出 1", "以项遍历 “{” % 【】：\n\t\t输出 1", "令局 = 【“{” % 【】】", "其缺 = “{” % 【】", "（显示：其）",
+	}
+	consumers := []string{
+		"（显示：（试：甲））", "令果 = （试：甲）\n（显示：果）", "输出 （试：甲）", "输出 （试：甲）之长度", "输出 （试：甲）之文本", "令果 = 【（试：甲），1】\n（显示：果）",
+		"令果 = 【“k” = （试：甲）】\n（显示：果）", "输出 （试：甲） + 1", "输出 1 + （试：甲）", "输出 （试：甲） == 空", "输出 （试：甲） 为 （试：甲）", "如果 （试：甲）：\n\t输出 1",
+		"每当 （试：甲）：\n\t结束循环", "以项遍历 （试：甲）：\n\t（显示：项）", "输出 乙#{（试：甲）}", "乙#1 = （试：甲）\n（显示：乙）", "以（试：甲）（长度）", "以乙（后增：（试：甲））\n（显示：乙）",
+		"（试：甲），得到果\n（显示：果）\n（显示：（生成JSON：【果】））", "（试：（试：甲））", "令果恒为（试：甲）\n（显示：果）", "输出 “{}” % 【（试：甲）】", "抛出异常：（试：甲）！", "（显示：（生成JSON：【“k” = （试：甲）】））",
+		"令物 = （新建壳：（试：甲））\n（显示：物之内）\n（显示：物）", "输出 以（试：甲）（文本）、（长度）",
+	}
+	for _, fb := range failBodies {
+		for hi, handler := range []string{"", "\n\t拦截异常：\n\t\t（显示：“h”）", "\n\t拦截异常：\n\t\t输出 “h”"} {
+			for _, cons := range consumers {
+				src := "定义壳：\n\t其内 = 0\n如何新建壳？\n\t输入值\n\t其内 = 值\n如何试？\n\t输入参\n\t（显示：“in”）\n\t" + fb + "\n\t输出 参" + handler + "\n" + cons + "\n（显示：“after”）\n"
+				addProg(fmt.Sprintf("fnresult/h%d", hi), src, Num(1), List(Num(1), Num(2)))
+				// the same with the failure in a type method
+				msrc := "定义壳：\n\t其内 = 0\n如何新建壳？\n\t输入值\n\t其内 = 值\n定义器：\n\t其数 = 1\n\t如何试？\n\t\t输入参\n\t\t" + strings.ReplaceAll(fb, "\n\t\t", "\n\t\t\t") + "\n\t\t输出 参" + strings.ReplaceAll(handler, "\n\t", "\n\t\t") + "\n令机 = （新建器）\n" + strings.ReplaceAll(cons, "（试：甲）", "以机（试：甲）") + "\n（显示：“after”）\n"
+				if !strings.Contains(cons, "（试：（试") && !strings.Contains(cons, "以（试") {
+					addProg(fmt.Sprintf("methodresult/h%d", hi), msrc, Num(1), List(Num(1), Num(2)))
+				}
+			}
 		}
 	}
 	// format strings x argument lists (crash freedom; semantics are C14's)
